@@ -72,6 +72,14 @@ def cases(tier, seed):
                         continue
                     yield {"nodes": nodes, "edges": edges,
                            "att": [[i for i in range(n) if am >> i & 1]] if am else []}
+                if n >= 2 and (n <= 2 or mask in ATT3_MASKS or tier == "thorough"):
+                    # node list not sorted by id (ids assigned explicitly, descending), as after loading a file
+                    yield {"nodes": nodes, "edges": edges, "att": [], "ids": list(range(n - 1, -1, -1))}
+                    # an attacker whose entry point is not among its reached steps (compromise undone / explicit add)
+                    for e in range(n):
+                        yield {"nodes": nodes, "edges": edges, "att": [[]], "att_entry": [[e]]}
+                        if n <= 2:
+                            yield {"nodes": nodes, "edges": edges, "att": [[(e + 1) % n]], "att_entry": [[e]]}
                 if n <= 2 and edges:
                     # double edges: every chosen pair twice
                     yield {"nodes": nodes, "edges": edges + edges, "att": [list(range(n))]}
@@ -102,7 +110,13 @@ def cases(tier, seed):
         att = []
         for _a in range(rnd.choice((0, 1, 2))):
             att.append(sorted(rnd.sample(range(n), rnd.randint(0, min(3, n)))))
-        yield {"nodes": nodes, "edges": edges, "att": att}
+        rec = {"nodes": nodes, "edges": edges, "att": att}
+        if att and rnd.random() < 0.5:
+            rec["att_entry"] = [sorted(rnd.sample(range(n), rnd.randint(0, min(2, n)))) for _ in att]
+        if rnd.random() < 0.4:
+            ids = list(range(n)); rnd.shuffle(ids)
+            rec["ids"] = [10 * i for i in ids]
+        yield rec
 
 
 def _key(recipe):
@@ -119,7 +133,10 @@ def run_case(recipe):
     n = len(nodes_rec)
     spec = {"nodes": [[v[0], v[1], v[2], (1.0 if not v[1] else 0.5) if v[0] == "defense" else True] for v in nodes_rec],
             "edges": recipe["edges"],
-            "attackers": [["atk%d" % k, reached[:1], reached] for k, reached in enumerate(recipe["att"])]}
+            "attackers": [["atk%d" % k, (recipe["att_entry"][k] if recipe.get("att_entry") else reached[:1]), reached]
+                          for k, reached in enumerate(recipe["att"])]}
+    if recipe.get("ids"):
+        spec["ids"] = recipe["ids"]
     g, nodes, atts = L.build_hand(spec)
     pre = L.wf_detail(g)
     if pre:
@@ -188,10 +205,11 @@ def run_case(recipe):
         r.check("C13.wf", False, FN_RM if cl in ("W4", "W5") else FN, "%s: %s" % (cl, det),
                 "%s:%s%s" % (cl, det, ":attacker-reached-pruned-node" if hit and cl in ("W4", "W5") else ""))
     # lookups through the public API for every original id / name
+    ids0 = recipe.get("ids") or list(range(n))
     for i in range(n):
         want = nodes[i] if L.has(g.nodes, nodes[i]) else None      # consistency with what IS in the graph
-        ok1 = g.get_node_by_id(i) is want
-        ok2 = g.get_node_by_full_name("%d:n%d" % (i, i)) is want
+        ok1 = g.get_node_by_id(ids0[i]) is want
+        ok2 = g.get_node_by_full_name("%d:n%d" % (ids0[i], i)) is want
         r.check("C13.lookup", ok1 and ok2, FN_RM, "lookup of node %d after pruning: by id ok=%s by name ok=%s" % (i, ok1, ok2),
                 "lookup-" + ("present" if want is not None else "removed"))
     if removed:
